@@ -6,7 +6,12 @@ every hit, and the check fails when source and table disagree):
 
   memo         a function/method decorated with ``functools.lru_cache`` / ``cache`` / ``cached_property`` (or with a
                package-level alias of them such as ``misc._lru_cache_for_simple_logic``), at any nesting depth, and the
-               assignment forms ``name = lru_cache(...)(f)`` / ``name = lru_cache(f)`` / ``self.x = lru_cache(...)(f)``
+               assignment forms ``name = lru_cache(...)(f)`` / ``name = lru_cache(f)`` / ``self.x = lru_cache(...)(f)``; more
+               generally EVERY application ``lru_cache(...)(f)`` / ``cache(f)`` written as a call expression - anywhere in the
+               right-hand side of an assignment (``self.x = given or lru_cache(...)(f)``, conditional expressions, container
+               displays, call arguments), in a ``return``, a default value, a ``setattr`` ... (named after the assignment
+               target if there is one, else ``<enclosing function>.<memo-expr>``)
+  partial-state ``functools.partial(f, {}, ...)``: a partial object that binds a mutable container (a hidden cache argument)
   module-state a module-level name bound to a dict/list/set/bytearray/deque literal, comprehension or constructor call, or
                to an instance (call of a class of the package), or rebound through a ``global`` statement - that is
                mutated inside some function of the package (subscript store/delete, ``.append/.add/.update/...``,
@@ -18,7 +23,13 @@ every hit, and the check fails when source and table disagree):
   inst-attr    an instance attribute of a long-lived class (every class of the package except the ones listed as
                per-request in the table) that is stored, augmented or mutated in place (``self.X = ``, ``self.X += ``,
                ``self.X[k] = ``, ``del self.X[k]``, ``self.X.append(...)`` ...) in a method other than ``__init__`` /
-               ``__new__`` / ``__post_init__``
+               ``__new__`` / ``__post_init__`` - directly or through a local alias (``x = self.X`` ... ``x[k] = v``: form
+               ``alias:store[]``)
+  lazy-init    (a form of inst-attr / class-attr / module-state items) ``if self.X is None: self.X = V`` / ``x = self.X; if x is
+               None: x = self.X = V`` / ``if not self.X`` / ``if not hasattr(self, 'X')`` / ``try: self.X except AttributeError:
+               self.X = V`` outside ``__init__``: state created by the first request(s) that need it.  The form records what is
+               created: ``lazy-init:lock`` (Lock/RLock/Event/Condition/Semaphore - an OBSERVABLE value: two racing initialisers hold
+               different locks), ``lazy-init:container``, ``lazy-init:instance:<Class>``, ``lazy-init:call:<callee>``, ``lazy-init:expr``
 
 The ``shape`` of an item is a short canonical string (decorator text with its arguments; the set of mutation forms); a change of
 shape (e.g. ``lru_cache(maxsize=64)`` -> ``lru_cache(maxsize=None)``, or a new kind of mutation) is reported like a new item.
@@ -32,6 +43,7 @@ MUTATORS = {'append', 'add', 'update', 'setdefault', 'pop', 'clear', 'extend', '
             'appendleft', 'popleft', 'sort', 'reverse', '__setitem__', '__delitem__', 'cache_clear'}
 MUTABLE_CTORS = {'dict', 'list', 'set', 'bytearray', 'defaultdict', 'OrderedDict', 'deque', 'Counter', 'WeakValueDictionary',
                  'WeakKeyDictionary', 'WeakSet', 'ChainMap'}
+SYNC_CTORS = {'Lock', 'RLock', 'Semaphore', 'BoundedSemaphore', 'Event', 'Condition', 'Barrier', 'allocate_lock'}
 TRACK_ARGS = True
 INIT_METHODS = {'__init__', '__new__', '__post_init__', '__init_subclass__', '__set_name__'}
 
@@ -119,6 +131,7 @@ class _Scope:
         self.node, self.parent, self.cls = node, parent, cls
         self.locals = set()
         self.globals = set()
+        self.aliases = {}            # local name -> X for `name = self.X` / `name = self.X = value`
         if node is not None:
             a = node.args
             for x in a.posonlyargs + a.args + a.kwonlyargs:
@@ -134,6 +147,25 @@ class _Scope:
                 for t in _binding_targets(n):
                     if t not in self.globals:
                         self.locals.add(t)
+                if isinstance(n, ast.Assign):
+                    attrs = [dotted(t) for t in n.targets if isinstance(t, ast.Attribute)]
+                    if isinstance(n.value, ast.Attribute):
+                        attrs.append(dotted(n.value))
+                    attrs = [a for a in attrs if a and a.startswith('self.') and a.count('.') == 1]
+                    if attrs:
+                        for t in n.targets:
+                            if isinstance(t, ast.Name):
+                                self.aliases[t.id] = attrs[0].split('.')[1]
+
+    def alias_of(self, name):
+        s = self
+        while s is not None and s.node is not None:
+            if name in s.aliases:
+                return s.aliases[name]
+            if name in s.locals:
+                return None
+            s = s.parent
+        return None
 
     def is_local(self, name):
         s = self
@@ -156,6 +188,18 @@ def _walk_same_scope(fn):
             if isinstance(c, (ast.FunctionDef, ast.AsyncFunctionDef, ast.ClassDef, ast.Lambda)):
                 continue
             stack.append(c)
+
+
+def _calls_in(expr):
+    """every Call node inside the expression `expr` (not inside nested lambdas)"""
+    stack = [expr]
+    while stack:
+        n = stack.pop()
+        if isinstance(n, ast.Call):
+            yield n
+        for c in ast.iter_child_nodes(n):
+            if not isinstance(c, ast.Lambda):
+                stack.append(c)
 
 
 def _names_in_target(t):
@@ -221,6 +265,7 @@ def scan(root=None, per_request_classes=()):
                             changed = True
 
     items = {}
+    handled = set()
 
     def item(rel, qual, det, shape, line):
         it = items.get((rel, qual))
@@ -336,6 +381,11 @@ def scan(root=None, per_request_classes=()):
                         item(rel, name, 'module-state', 'global-rebind', line)
                     return
                 if scope.is_local(name):
+                    al = scope.alias_of(name)
+                    if al and cls is not None and cls.name not in per_request_classes:
+                        fn = _enclosing_method(scope)
+                        if fn is not None and fn not in INIT_METHODS:
+                            item(rel, f'{cls.name}.{al}', 'inst-attr', 'alias:' + verb + (form or ''), line)
                     return
                 if name in mod_globals:
                     item(rel, name, 'module-state', verb + (form or ''), line)
@@ -388,22 +438,114 @@ def scan(root=None, per_request_classes=()):
                         if r.rsplit('/', 1)[-1][:-3] == od.split('.')[-1]:
                             item(r, attr, 'module-state', verb + (form or '') + '@' + rel, line)
 
+        def memo_application(c):
+            """`lru_cache(...)(f)` / `cache(f)`: 'lru_cache(...)<-f', else None"""
+            m0 = memo_call(c.func)
+            if m0 and c.args and not isinstance(c.args[0], ast.Constant):
+                return m0 + '<-' + _unparse(c.args[0])
+            return None
+
+        def partial_state(c):
+            d = dotted(c.func)
+            if d and d.split('.')[-1] == 'partial' and c.args:
+                held = [_unparse(a) for a in list(c.args[1:]) + [k.value for k in c.keywords] if _is_mutable_value(a, ()) == 'container']
+                if held:
+                    return 'partial(' + _unparse(c.args[0]) + ')|binds:' + '+'.join(held)
+            return None
+
+        def lazy_value(v):
+            if isinstance(v, ast.Call):
+                d = dotted(v.func)
+                tail = d.split('.')[-1] if d else '?'
+                if tail in SYNC_CTORS:
+                    return 'lock'
+                mv = _is_mutable_value(v, class_names)
+                if mv:
+                    return mv
+                return 'call:' + tail
+            if _is_mutable_value(v, class_names):
+                return 'container'
+            return 'expr'
+
+        def lazy_init(n, qual, scope, cls):
+            """`if <X is unset>: X = V` (X = self.attr, cls.attr or a global) outside __init__"""
+            in_func = scope is not None and scope.node is not None
+            if not in_func:
+                return
+            fn = _enclosing_method(scope)
+            if fn is None or fn in INIT_METHODS:
+                return
+
+            def subject(e):
+                """('self', X) / ('cls', X) / ('global', name) the expression `e` stands for, or None"""
+                d = dotted(e)
+                if d is None:
+                    return None
+                if d.startswith('self.') and d.count('.') == 1 and cls is not None:
+                    return ('self', d.split('.')[1])
+                if (d.startswith('cls.') or d.startswith('self.__class__.')) and cls is not None:
+                    return ('cls', d.split('.')[-1])
+                if '.' not in d:
+                    al = scope.alias_of(d)
+                    if al and cls is not None:
+                        return ('self', al)
+                    if d in _globals_chain(scope):
+                        return ('global', d)
+                return None
+
+            subjects = []
+            if isinstance(n, ast.If):
+                t = n.test
+                if isinstance(t, ast.UnaryOp) and isinstance(t.op, ast.Not):
+                    t2 = t.operand
+                    if isinstance(t2, ast.Call) and dotted(t2.func) == 'hasattr' and len(t2.args) == 2 and isinstance(t2.args[1], ast.Constant):
+                        if dotted(t2.args[0]) == 'self' and cls is not None:
+                            subjects.append(('self', str(t2.args[1].value)))
+                    else:
+                        subjects.append(subject(t2))
+                elif isinstance(t, ast.Compare) and len(t.ops) == 1 and isinstance(t.ops[0], (ast.Is, ast.Eq)):
+                    subjects.append(subject(t.left))
+                body = n.body
+            else:
+                for h in n.handlers:
+                    if h.type is not None and 'AttributeError' in _unparse(h.type) or (h.type is not None and 'KeyError' in _unparse(h.type)):
+                        for x in n.body:
+                            for y in ast.walk(x):
+                                if isinstance(y, ast.Attribute) and isinstance(y.ctx, ast.Load):
+                                    subjects.append(subject(y))
+                body = [x for h in n.handlers for x in h.body]
+            for sub in {x for x in subjects if x}:
+                for x in body:
+                    for y in ast.walk(x):
+                        if isinstance(y, ast.Assign):
+                            for t in y.targets:
+                                if subject(t) == sub and not (isinstance(t, ast.Name) and sub[0] == 'self'):
+                                    form = 'lazy-init:' + lazy_value(y.value)
+                                    if sub[0] == 'self':
+                                        if cls.name not in per_request_classes:
+                                            item(rel, f'{cls.name}.{sub[1]}', 'inst-attr', form, y.lineno)
+                                    elif sub[0] == 'cls':
+                                        item(rel, f'{cls.name}.{sub[1]}', 'class-attr', form, y.lineno)
+                                    else:
+                                        item(rel, sub[1], 'module-state', form, y.lineno)
+
         def check_stmt(n, qual, scope, cls):
             line = getattr(n, 'lineno', 0)
             if isinstance(n, ast.Assign):
-                # assignment-form memo:  X = lru_cache(...)(f)  /  X = lru_cache(f)
-                v = n.value
-                m = None
-                if isinstance(v, ast.Call):
-                    m0 = memo_call(v.func)
-                    if m0 and v.args:
-                        m = m0 + '<-' + _unparse(v.args[0])
-                if m:
-                    for t in n.targets:
-                        d = dotted(t)
-                        if d:
-                            q = '.'.join(qual + [d]) if (scope is not None and scope.node is not None) or cls else d
-                            item(rel, q, 'memo', '=' + m, line)
+                # assignment-form memo:  X = lru_cache(...)(f)  /  X = lru_cache(f)  /  X = given or lru_cache(...)(f)  / ...
+                for c in _calls_in(n.value):
+                    m = memo_application(c)
+                    ps = partial_state(c)
+                    if m or ps:
+                        handled.add(id(c))
+                        for t in n.targets:
+                            d = dotted(t)
+                            if d:
+                                q = '.'.join(qual + [d]) if (scope is not None and scope.node is not None) or cls else d
+                                if m:
+                                    item(rel, q, 'memo', '=' + m, line)
+                                else:
+                                    item(rel, q, 'partial-state', ps, line)
                 for t in n.targets:
                     for tt in ([t] if not isinstance(t, (ast.Tuple, ast.List)) else t.elts):
                         node, form = base_of(tt)
@@ -422,6 +564,15 @@ def scan(root=None, per_request_classes=()):
             elif isinstance(n, ast.Call) and isinstance(n.func, ast.Attribute) and n.func.attr in MUTATORS:
                 node, form = base_of(n.func.value)
                 record_target(node, form, line, qual, scope, cls, '.' + n.func.attr)
+            if isinstance(n, ast.Call) and id(n) not in handled:
+                m = memo_application(n)
+                ps = partial_state(n)
+                if m:
+                    item(rel, '.'.join(qual + ['<memo-expr>']), 'memo', '=' + m, line)
+                elif ps:
+                    item(rel, '.'.join(qual + ['<partial-expr>']), 'partial-state', ps, line)
+            if isinstance(n, (ast.If, ast.Try)):
+                lazy_init(n, qual, scope, cls)
             if isinstance(n, ast.Call) and TRACK_ARGS:
                 # aliasing: `self.X` handed to a local helper (a plain-name callee), which may mutate it
                 if isinstance(n.func, ast.Name) and scope is not None and n.func.id in _local_defs(scope):
